@@ -29,11 +29,37 @@ AVOID = {
  'C19': 'the Parameter::Fixed arm of Solver::get_jacobian',
  'C20': 'the NaN block of the x86_64 interval build_max',
 }
+AVOID2 = {
+ 'C01': 'RegisterAllocator::op_output (outputs already spilled to memory)',
+ 'C02': 'the round sequence of the x86_64 JIT point evaluator',
+ 'C03': 'the x86_64 JIT interval abs sequence',
+ 'C04': 'the choice recorded for max(reg, imm) in the interpreter point evaluator',
+ 'C05': 'the symbolic derivative of mod in Context::deriv',
+ 'C06': 'render_tiles in fidget-raster/src/lib.rs (tile grid dimensions)',
+ 'C07': 'the z-layer loop bound in voxel render_tile',
+ 'C08': 'the NaN-gradient guard in OctreeBuilder::leaf',
+ 'C09': 'where OctreeBuilder::recurse polls the cancel token',
+ 'C10': 'RegisterAllocator::reset (spare_memory)',
+ 'C11': 'VarMap::check_bulk_arguments',
+ 'C12': 'constant folding in Context::op_binary',
+ 'C13': 'the affine frame construction in Context::import',
+ 'C14': 'ShapeBulkEval::eval_raw scratch population',
+ 'C15': 'the numbering of BytecodeOp::Mem',
+ 'C16': 'Vec3::map in fidget-shapes/src/types.rs',
+ 'C17': 'the comparison-ban handlers in fidget-rhai/src/tree.rs',
+ 'C18': 'Canvas3::interact ending the drag when the cursor leaves',
+ 'C19': 'the early-exit test of the solve loop',
+ 'C20': 'the simplify flag of AndRegImm in the interpreter interval evaluator',
+}
 for pid in (ids or props):
     p = props[pid]
     avoid = ''
-    if 'seed2' in root or 'seed3' in root:
+    if 'seed2' in root:
         avoid = f"\nAn earlier experiment already used a change in {AVOID[pid]}. Pick a DIFFERENT mechanism in a different function (ideally a different file or clause of the property).\n"
+    if 'seed3' in root:
+        avoid = (f"\nTwo earlier experiments already used (1) {AVOID[pid]} and (2) {AVOID2[pid]}. Pick a mechanism different from both, in a different function, "
+                 "ideally exercising a clause of the property statement or a part of its quantifier that neither of them touched. Prefer a change whose trigger is rare "
+                 "(a specific value, count, size, order or history) over one that most inputs expose.\n")
     open(f'{root}/prompt_{pid}.txt', 'w').write(f"""You are helping to evaluate a verification suite for the Rust library mkeeter/fidget (implicit-surface math expressions compiled to tapes, evaluated by an interpreter VM or an x86_64 JIT, rendered or meshed). You do NOT see the verification suite. Your job is to write ONE realistic, subtle breaking change to the library.
 
 Your private scratch copy of the repository is the git worktree at {root}/{pid} (work ONLY there; never touch /repo or /verif; do not commit). The machine is offline: always pass --offline to cargo and set CARGO_TARGET_DIR={root}/{pid}/target for every cargo command.
